@@ -62,6 +62,12 @@ class BadPickle:
     def __reduce__(self):
         if self.ename == "struct.error":
             raise struct.error("'i' format requires -2147483648 <= number <= 2147483647")
+        if self.ename == "BrokenPipeError":
+            import errno
+
+            raise BrokenPipeError(errno.EPIPE, "Broken pipe (raised while pickling)")
+        if self.ename == "IndexError":
+            raise IndexError("index out of range (raised while pickling)")
         raise EXC[self.ename]("bad pickle")
 
 
